@@ -617,6 +617,12 @@ fn c20(seed: u64, cases: usize, model_path: &str, thorough: bool) -> serde_json:
         if m.ask(&format!("prim tccr {key} {} {}", hex(&t), hex(&x))) != format!("tccr {}", hex(&v::tccr_hash(t, x))) { failures.push(json!({"witness": "C20:tccr-hash", "failure": "tccr_hash_block != pi(pi(x)^t)^pi(x)", "case": {"x": hex(&x), "t": hex(&t)}})); } }
     let lens: Vec<usize> = if thorough { (0..=1100).collect() } else { let mut l: Vec<usize> = (0..40).collect(); l.extend([127, 128, 129, 143, 144, 145, 255, 256, 257, 1024, 1100]); for _ in 0..cases { l.push(r.below(1101) as usize); } l };
     for n in lens { let seed_b: [u8; 16] = std::array::from_fn(|_| r.next() as u8); evals += 1; *dist.entry(format!("ctr:len%16={}", if n % 16 == 0 { "0" } else { "nz" })).or_default() += 1; distinct.insert(format!("r/{n}"));
+        // sequences of calls on one generator vs the stateful Lean model (fast path + buffered tail + word-granular buffer index)
+        { let k = 1 + r.below(4) as usize; let lens: Vec<usize> = (0..k).map(|_| match r.below(5) { 0 => r.below(16) as usize, 1 => 16 * r.below(12) as usize, 2 => 100 + r.below(200) as usize, 3 => 1 + r.below(7) as usize, _ => r.below(700) as usize }).collect();
+          let real = v::aes_rng_fill(seed_b, &lens); let want = format!("ctrseq {}", real.iter().map(|o| if o.is_empty() { "-".to_string() } else { hex(o) }).collect::<Vec<_>>().join("|"));
+          let model = m.ask(&format!("prim ctrseq {} {}", hex(&seed_b), lens.iter().map(|x| x.to_string()).collect::<Vec<_>>().join(",")));
+          *dist.entry("aesrng_sequences".into()).or_default() += 1;
+          if model != want { failures.push(json!({"witness": "C20:aes-rng-sequence", "failure": "a sequence of fill_bytes calls differs from the model of AesRng/BlockRng", "case": {"seed": hex(&seed_b), "lens": lens}})); } }
         let got = v::aes_rng_fill(seed_b, &[n]); if m.ask(&format!("prim ctr {} {n}", hex(&seed_b))) != format!("ctr {}", hex(&got[0])) { failures.push(json!({"witness": "C20:aes-ctr", "failure": format!("fill_bytes({n}) on a fresh generator is not the AES-128-CTR keystream prefix"), "case": {"seed": hex(&seed_b), "n": n}})); } }
     // ---- the Lean BLAKE3 (used for commitments, hash128, hash_vec in the message-level ties) against the crate
     for n in [0usize, 1, 16, 34, 63, 64, 65, 127, 128, 1023, 1024, 1025, 2047, 2048, 2049, 3072, 3073, 4097, 7000].into_iter().chain({ let mut rr = r.fork(); (0..cases).map(move |_| rr.below(6000) as usize).collect::<Vec<_>>() }) {
